@@ -138,65 +138,92 @@ def infeasible_pattern_masking(ctx, rule='A5m'):
     n = 0
     # (i) _encode_connection_choice marks empty patterns with -1 (array and dict form)
     fn = ctx.fn(f'{GP}._encode_connection_choice')
-    cfg = build_cfg(fn)
-    stores = []
-    for nd in cfg.nodes:
-        a = nd.ast
-        if nd.kind == 'stmt' and isinstance(a, ast.Assign):
+    unit = unit_functions(ctx.prog, fn)
+
+    def empty_fact(atom, truth):
+        return isinstance(atom, ast.Compare) and len(atom.ops) == 1 and 'shape[0]' in norm(atom.left) and \
+            isinstance(atom.comparators[0], ast.Constant) and atom.comparators[0].value == 0 and \
+            ((isinstance(atom.ops[0], ast.Eq) and truth is True) or
+             (isinstance(atom.ops[0], (ast.NotEq, ast.Gt)) and truth is False))
+
+    def filtered_names(u, seed=()):
+        """Locals of u holding pattern indices collected under the emptiness test (collect-then-apply form), plus
+        wrappers of them (set/list/sorted ...)."""
+        assigns = [a for a in walk_fn(u) if isinstance(a, ast.Assign) and isinstance(a.targets[0], ast.Name)]
+        names = set(seed)
+        for a in assigns:
+            for c in ast.walk(a.value):
+                if isinstance(c, (ast.ListComp, ast.SetComp, ast.GeneratorExp)) and \
+                        any(empty_fact(i, True) for g in c.generators for i in g.ifs):
+                    names.add(a.targets[0].id)
+        changed = True
+        while changed:
+            changed = False
+            for a in assigns:
+                if a.targets[0].id not in names and isinstance(a.value, ast.Call) and \
+                        call_name(a.value) in ('set', 'list', 'tuple', 'sorted', 'frozenset', 'array') and \
+                        a.value.args and isinstance(a.value.args[0], ast.Name) and a.value.args[0].id in names:
+                    names.add(a.targets[0].id)
+                    changed = True
+        return names
+    fnames = {fn.key: filtered_names(fn)}
+    # a private helper that is handed such a collection: the parameter is a filtered name inside it
+    for u in unit[1:]:
+        seed = set()
+        for c in calls(fn):
+            if call_name(c) == u.name:
+                hp = [q for q in u.params if q not in ('self', 'cls')] if isinstance(c.func, ast.Attribute) else \
+                    list(u.params)
+                seed |= {q for q, a in zip(hp, c.args) if isinstance(a, ast.Name) and a.id in fnames[fn.key]}
+        fnames[u.key] = filtered_names(u, seed)
+
+    def collection_name(e):
+        while isinstance(e, ast.Call) and call_name(e) in ('sorted', 'list', 'tuple', 'set', 'frozenset') and e.args:
+            e = e.args[0]
+        return e.id if isinstance(e, ast.Name) else None
+
+    def from_collection(u, st):
+        # existence_map[np.isin(existence_map, <filtered>)] = -1  /  {...: -1 if i in <filtered> else i ...}
+        for c in ast.walk(st.ast):
+            if isinstance(c, ast.Call) and call_name(c) == 'isin' and len(c.args) == 2 and \
+                    collection_name(c.args[1]) in fnames[u.key]:
+                return True
+            if isinstance(c, ast.Compare) and len(c.ops) == 1 and isinstance(c.ops[0], ast.In) and \
+                    collection_name(c.comparators[0]) in fnames[u.key]:
+                return True
+        return False
+    # marking sites: a store into / a rebuilt dict of the existence map that writes -1 (here or in a helper)
+    sites = []
+    for u in unit:
+        for nd in build_cfg(u).nodes:
+            a = nd.ast
+            if nd.kind != 'stmt' or not isinstance(a, (ast.Assign, ast.Return)) or a.value is None:
+                continue
             txt = norm(a)
-            if 'existence_map' in norm(a.targets[0]) and '-1' in txt:
-                stores.append(nd)
-    ok = len(stores) >= 2
+            if '-1' not in txt:
+                continue
+            if isinstance(a, ast.Assign) and (('existence_map' in norm(a.targets[0])) or
+                                              (u is not fn and isinstance(a.targets[0], ast.Subscript))):
+                sites.append((u, nd))
+            elif isinstance(a, ast.Return) and u is not fn and isinstance(a.value, ast.DictComp):
+                sites.append((u, nd))
+    ok = len(sites) >= 2
     ctx.ob(rule, fkey(fn, rule, 'mark-empty-pattern'), ok, fn.where,
            'both representations of the existence map (array by combination, dict by existence mask) mark a '
            'pattern whose aggregate matrix is empty with -1',
-           f'{len(stores)} marking store(s): ' + '; '.join(short(s.ast, 60) for s in stores))
+           f'{len(sites)} marking site(s): ' + '; '.join(short(nd.ast, 60) for _, nd in sites))
     n += 1
-    if stores:
-        def empty_fact(atom, truth):
-            return isinstance(atom, ast.Compare) and len(atom.ops) == 1 and 'shape[0]' in norm(atom.left) and \
-                isinstance(atom.comparators[0], ast.Constant) and atom.comparators[0].value == 0 and \
-                ((isinstance(atom.ops[0], ast.Eq) and truth is True) or
-                 (isinstance(atom.ops[0], (ast.NotEq, ast.Gt)) and truth is False))
-        # collect-then-apply form: the marked pattern indices come from a collection filtered by the same test
-        assigns = [a for a in walk_fn(fn) if isinstance(a, ast.Assign) and isinstance(a.targets[0], ast.Name)]
-
-        def filtered_names():
-            names = set()
-            for a in assigns:
-                for c in ast.walk(a.value):
-                    if isinstance(c, (ast.ListComp, ast.SetComp, ast.GeneratorExp)) and \
-                            any(empty_fact(i, True) for g in c.generators for i in g.ifs):
-                        names.add(a.targets[0].id)
-            changed = True
-            while changed:
-                changed = False
-                for a in assigns:
-                    if a.targets[0].id not in names and isinstance(a.value, ast.Call) and \
-                            call_name(a.value) in ('set', 'list', 'tuple', 'sorted', 'frozenset', 'array') and \
-                            a.value.args and isinstance(a.value.args[0], ast.Name) and a.value.args[0].id in names:
-                        names.add(a.targets[0].id)
-                        changed = True
-            return names
-        fnames = filtered_names()
-
-        def from_collection(st):
-            # existence_map[np.isin(existence_map, <filtered>)] = -1  /  {...: -1 if i in <filtered> else i ...}
-            for c in ast.walk(st.ast):
-                if isinstance(c, ast.Call) and call_name(c) == 'isin' and len(c.args) == 2 and \
-                        isinstance(c.args[1], ast.Name) and c.args[1].id in fnames:
-                    return True
-                if isinstance(c, ast.Compare) and len(c.ops) == 1 and isinstance(c.ops[0], ast.In) and \
-                        isinstance(c.comparators[0], ast.Name) and c.comparators[0].id in fnames:
-                    return True
-            return False
-        direct = [st for st in stores if not from_collection(st)]
-        for i, st in enumerate(st for st in stores if from_collection(st)):
-            ctx.ob(rule, fkey(fn, rule, f'mark-only-empty:collected#{i}'), True, f'{fn.module.relpath}:{st.lineno}',
-                   'the patterns marked -1 are those collected under the test that their aggregate matrix has zero '
-                   'rows', short(st.ast, 80))
-        if direct:
-            guards.check_guarded(ctx, rule, fn, direct, empty_fact, set(), 'mark-only-empty',
+    if sites:
+        direct = {}
+        for i, (u, st) in enumerate(sites):
+            if from_collection(u, st):
+                ctx.ob(rule, fkey(fn, rule, f'mark-only-empty:collected#{i}'), True, f'{u.module.relpath}:{st.lineno}',
+                       'the patterns marked -1 are those collected under the test that their aggregate matrix has '
+                       'zero rows', short(st.ast, 80))
+            else:
+                direct.setdefault(u.key, (u, []))[1].append(st)
+        for u, sts in direct.values():
+            guards.check_guarded(ctx, rule, u, sts, empty_fact, set(), 'mark-only-empty',
                                  'a pattern is marked -1 only under the test that its aggregate matrix has zero rows')
         n += 1
     # (ii) _get_des_vars clears the mask where the map is -1
